@@ -104,6 +104,47 @@ LoadFamily(ext, set) ==
 
 Z0Classes == {"equal", "unequal", "complex", "perfreq"}
 
+(* Which ports share a reference impedance is a dimension of its own: the   *)
+(* equality pattern is a sequence of block numbers, one per port, in        *)
+(* restricted-growth form (first port block 1; a port opens block k+1 only  *)
+(* after blocks 1..k were used): <<1, 2, 1>> = ports 1 and 3 equal, port 2  *)
+(* different.  kind is "real" (ordinary, real positive), "complex" or       *)
+(* "perfreq".                                                               *)
+MaxOf(q) == CHOOSE m \in {q[i] : i \in 1..Len(q)} : \A i \in 1..Len(q) : q[i] <= m
+
+RECURSIVE RGS(_)
+RGS(n) ==        \* every set partition of n ports
+    IF n = 1 THEN {<<1>>}
+    ELSE UNION {{Append(q, b) : b \in 1..(MaxOf(q) + 1)} : q \in RGS(n - 1)}
+
+Z0Patterns(n) ==
+    IF n <= 4 THEN RGS(n)
+    ELSE LET all1  == [i \in 1..n |-> 1]
+             dist  == [i \in 1..n |-> i]
+             mid   == (n + 1) \div 2
+         IN {all1, dist,
+             \* first = last, everything between distinct
+             [i \in 1..n |-> IF i = n THEN 1 ELSE i],
+             \* first = a middle port only
+             [i \in 1..n |-> IF i = mid THEN 1 ELSE IF i > mid THEN i - 1 ELSE i],
+             \* all but one equal (the odd one in the middle / at the end)
+             [i \in 1..n |-> IF i = mid THEN 2 ELSE 1],
+             [i \in 1..n |-> IF i = n THEN 2 ELSE 1],
+             \* two pairs
+             [i \in 1..n |-> IF i \in {1, n} THEN 1 ELSE IF i \in {2, 3} THEN 2
+                              ELSE i - 1]}
+
+Z0ClassOf(kind, pat) ==
+    IF kind = "real"
+    THEN IF \A i \in 1..Len(pat) : pat[i] = 1 THEN "equal" ELSE "unequal"
+    ELSE kind
+
+(* the canonical pattern of a class where only the class matters *)
+CanonPattern(z0c, n) ==
+    IF z0c = "equal" THEN [i \in 1..n |-> 1] ELSE [i \in 1..n |-> i]
+
+KindOfClass(z0c) == IF z0c \in {"equal", "unequal"} THEN "real" ELSE z0c
+
 (* the documented default: parameter type of the object, "ri" *)
 EffFmts(c) == IF c.fmts = <<>> THEN <<[p |-> c.type, f |-> "ri"]>> ELSE c.fmts
 
